@@ -3,13 +3,13 @@
 under not_applicable with the reason in NOT_YET (or the default)."""
 import glob, json, os
 HERE = os.path.dirname(os.path.dirname(os.path.abspath(__file__)))
-import subprocess
 CLAIMED = {}
-# only checks whose files are committed are claimed (contributors' work in progress is not)
-_tracked = set(subprocess.run(["git", "-C", HERE, "ls-files", "checks"], stdout=subprocess.PIPE).stdout.decode().split())
+# only checks accepted by the integrator are claimed (checks/claimed.txt, one property id per line);
+# contributors' work in progress is not
+_accepted = set(open(os.path.join(HERE, "checks", "claimed.txt")).read().split())
 for f in sorted(glob.glob(os.path.join(HERE, "checks", "C*.meta.json"))):
     pid = os.path.basename(f)[:3]
-    if "checks/%s.meta.json" % pid in _tracked and "checks/%s.py" % pid in _tracked:
+    if pid in _accepted:
         CLAIMED[pid] = json.load(open(f))
 NOT_YET = {}
 p = os.path.join(HERE, "checks", "not_claimed.json")
